@@ -137,7 +137,7 @@ def match_known(v: Violation, findings: list) -> dict | None:
 # ------------------------------------------------------------------ evidence
 def write_evidence(ctx: Ctx, wall: float, n_viol: int, rule: str, distinct_nontrivial: int,
                    exhaustive: bool = False, extra: dict | None = None) -> None:
-    EVIDENCE.mkdir(exist_ok=True)
+    EVIDENCE.mkdir(parents=True, exist_ok=True)
     cov = {
         "states": max(ctx.states, 0),
         "transitions": max(ctx.transitions, 0),
@@ -205,7 +205,7 @@ def main(argv: list[str]) -> int:
                            info.get("exhaustive", False),
                            {"known_findings_reobserved": len(seen), **info.get("extra", {})})
         if unknown:
-            REPLAYS.mkdir(exist_ok=True)
+            REPLAYS.mkdir(parents=True, exist_ok=True)
             rp = REPLAYS / f"{prop}-{tier}-{ctx.seed}.json"
             with open(rp, "w") as fp:
                 json.dump({"property": prop, "violations": [
